@@ -246,7 +246,7 @@ func remoteAddrString(a netip.Addr, zone string, port int) string {
 }
 
 func TestC12AccessRulesHTTP(t *testing.T) {
-	hx.Check(t, hx.Scale(30000, 1000000), func(t *rapid.T) {
+	hx.Check(t, hx.Scale(100000, 1000000), func(t *rapid.T) {
 		spaces := rapid.Bool().Draw(t, "spaces")
 		kind, items, opts := genRule(t, spaces)
 		tg := targetFor(t, opts, spaces)
@@ -362,7 +362,7 @@ type stubConn struct {
 func (s stubConn) RemoteAddr() net.Addr { return s.remote }
 
 func TestC12AccessRulesTCP(t *testing.T) {
-	hx.Check(t, hx.Scale(20000, 500000), func(t *rapid.T) {
+	hx.Check(t, hx.Scale(60000, 500000), func(t *rapid.T) {
 		kind, items, opts := genRule(t, true)
 		tg := targetFor(t, opts, true)
 		peer := genAddr(t, items, "peer")
@@ -417,7 +417,7 @@ func TestC12TCPEndToEnd(t *testing.T) {
 			c.Close()
 		}
 	}()
-	hx.Check(t, hx.Scale(150, 3000), func(t *rapid.T) {
+	hx.Check(t, hx.Scale(400, 3000), func(t *rapid.T) {
 		kind, items, opts := genRule(t, true)
 		// make the loopback addresses interesting
 		if rapid.Bool().Draw(t, "addloop") {
